@@ -171,18 +171,10 @@ class NdInterpolator:
             # Loop over all interpolation points one at a time.
             val = self.get_data(intp_indices_nd, self.interp_coord_dim_indices)
 
-            mask = np.all(
-                ~np.isnan(val), axis=self.output_passive_coord_dim_indices
-            ) & (intp_weight_nd > 0)
-
-            weights_sum[self.output_indexing_full(mask)] += intp_weight_nd[
-                self.output_indexing_broadcast(mask)
-            ]
-
-            interp_val[self.output_indexing_full(mask)] += (
-                intp_weight_nd[self.output_indexing_broadcast(mask)]
-                * val[self.output_indexing_full(mask)]
-            )
+            weight = intp_weight_nd[self.output_indexing_broadcast(slice(None))]
+            mask = ~np.isnan(val) & (weight > 0)
+            weights_sum += np.where(mask, weight, 0.0)
+            interp_val += np.where(mask, weight * np.where(mask, val, 0.0), 0.0)
 
         with np.errstate(invalid="ignore", divide="ignore"):
             return np.where(weights_sum > 0.5, interp_val / weights_sum, np.nan)
@@ -211,16 +203,10 @@ class NdInterpolator:
                 * to_rad
             )
 
-            mask = np.all(~np.isnan(val), axis=self.output_passive_coord_dim_indices)
-
-            weights_sum[self.output_indexing_full(mask)] += intp_weight_nd[
-                self.output_indexing_broadcast(mask)
-            ]
-
-            interp_val[self.output_indexing_full(mask)] += (
-                intp_weight_nd[self.output_indexing_broadcast(mask)]
-                * val[self.output_indexing_full(mask)]
-            )
+            weight = intp_weight_nd[self.output_indexing_broadcast(slice(None))]
+            mask = ~np.isnan(val)
+            weights_sum += np.where(mask, weight, 0.0)
+            interp_val += np.where(mask, weight * np.where(mask, val, 0.0), 0.0)
 
         interp_val = (
             np.angle(  # type: ignore
